@@ -326,4 +326,314 @@ theorem step_comment (G : Nat) (v : LV) (c : SwcText.Str) (t : List Tok) (nodes 
   cases h : parser_parse_comment (st encF (.comment c :: t) nodes) v.current <;>
     simp [loopBody, Py.seq, Py.bind, Py.skip, hs, enc, h]
 
+/-! ### the simulation: `_parse_subtree` ↔ `_parse_split` as translated against `Asc.parseSubtree` -/
+open C15 (ok_bind error_bind)
+
+/-- what the rest of the loop (result `out`) must be, given the model's result: an error ↦ an exception; the model's remaining tokens and
+rows ↦ the same remaining tokens in the parser object, and a heap related to the rows by `Built` -/
+def Post (ty : Int) (rows : List Asc.Row) (nodes : List ASTNode) (γ ρ : Nat) (γid ρid : Int) (out : Res LV Unit) :
+    Except Err (List Tok × List Asc.Row) → Prop
+  | .error _ => out = .err
+  | .ok (t', rows') => ∃ v' nodes' new, out = .next v' ∧ v'.self = st encF t' nodes' ∧ rows' = rows ++ new ∧ NoBad t' ∧
+      Built encF ty nodes nodes' γ ρ γid ρid rows.length new
+
+/-- the statement proved by induction on the model's fuel `f`: the translated loop with at least `f` iterations of its own fuel, calling
+`_parse_split` with fuel `G ≥ 2 f` (two levels of the translated recursion per level of the model's), does what the model does -/
+def LoopSpec (ty : Int) (f : Nat) : Prop :=
+  ∀ (toks : List Tok) (flag : Bool) (ρid γid : Int) (rows : List Asc.Row), NoBad toks →
+    parseSubtree ty f toks flag ρid γid rows ≠ .error .fuel →
+    ∀ (G n : Nat) (v : LV) (nodes : List ASTNode) (ρ γ : Nat), f ≤ n → 2 * f ≤ G → v.self = st encF toks nodes → v.root = (ρ : Int) →
+      v.current = (γ : Int) → v.flag = flag → ρ < nodes.length → γ < nodes.length →
+      Post encF ty rows nodes γ ρ γid ρid (L G n v) (parseSubtree ty f toks flag ρid γid rows)
+
+variable {encF}
+
+theorem Post.bar {ty : Int} {rows : List Asc.Row} {nodes : List ASTNode} {γ ρ : Nat} {γid ρid : Int} {out : Res LV Unit}
+    {res : Except Err (List Tok × List Asc.Row)} (h : Post encF ty rows nodes ρ ρ ρid ρid out res) : Post encF ty rows nodes γ ρ γid ρid out res := by
+  cases res with
+  | error e => exact h
+  | ok r =>
+    obtain ⟨v', nodes', new, h1, h2, h3, h4, h5⟩ := h
+    exact ⟨v', nodes', new, h1, h2, h3, h4, h5.bar⟩
+
+theorem Post.leaf {ty : Int} {rows : List Asc.Row} {nodes n1 : List ASTNode} {γ ρ : Nat} {γid ρid : Int} {out : Res LV Unit}
+    {res : Except Err (List Tok × List Asc.Row)} (rec : ASTNode)
+    (hγ : γ < nodes.length) (hρ : ρ < nodes.length) (hty : rec.type = 4 ∨ rec.type = 5) (hch : rec.children = [])
+    (h1 : Step (nodes ++ [rec]) n1 (fun i => if i = γ then [(nodes.length : Int)] else [])) (hl : n1.length = nodes.length + 1)
+    (h : Post encF ty rows n1 γ ρ γid ρid out res) : Post encF ty rows nodes γ ρ γid ρid out res := by
+  cases res with
+  | error e => exact h
+  | ok r =>
+    obtain ⟨v', nodes', new, g1, g2, g3, g4, g5⟩ := h
+    exact ⟨v', nodes', new, g1, g2, g3, g4, Built.leaf encF rec hγ hρ hty hch h1 hl g5⟩
+
+theorem Post.node {ty : Int} {rows : List Asc.Row} {nodes n1 : List ASTNode} {γ ρ : Nat} {γid ρid : Int} {out : Res LV Unit}
+    {res : Except Err (List Tok × List Asc.Row)} (a b c d : SwcText.Sci)
+    (hγ : γ < nodes.length) (hρ : ρ < nodes.length)
+    (h1 : Step (nodes ++ [nodeRec encF a b c d]) n1 (fun i => if i = γ then [(nodes.length : Int)] else []))
+    (hl : n1.length = nodes.length + 1)
+    (h : Post encF ty (rows ++ [⟨ty, a, b, c, d, γid⟩]) n1 nodes.length ρ (rows.length : Int) ρid out res) :
+    Post encF ty rows nodes γ ρ γid ρid out res := by
+  cases res with
+  | error e => exact h
+  | ok r =>
+    obtain ⟨v', nodes', new, g1, g2, g3, g4, g5⟩ := h
+    refine ⟨v', nodes', _ :: new, g1, g2, by rw [g3]; simp, g4, Built.node encF a b c d hγ hρ h1 hl ?_⟩
+    simpa using g5
+
+theorem Post.split {ty : Int} {rows new1 : List Asc.Row} {nodes n1 : List ASTNode} {γ ρ : Nat} {γid ρid : Int} {out : Res LV Unit}
+    {res : Except Err (List Tok × List Asc.Row)} (hγ : γ < nodes.length) (hρ : ρ < nodes.length)
+    (h1 : Built encF ty nodes n1 γ γ γid γid rows.length new1)
+    (h : Post encF ty (rows ++ new1) n1 γ ρ γid ρid out res) : Post encF ty rows nodes γ ρ γid ρid out res := by
+  cases res with
+  | error e => exact h
+  | ok r =>
+    obtain ⟨v', nodes', new, g1, g2, g3, g4, g5⟩ := h
+    refine ⟨v', nodes', new1 ++ new, g1, g2, by rw [g3]; simp, g4, Built.split encF hγ hρ h1 ?_⟩
+    simpa using g5
+
+/-- result of a whole `_parse_subtree(root, flag)` call -/
+def SubPost (encF : SwcText.Sci → Int) (ty : Int) (rows : List Asc.Row) (nodes : List ASTNode) (ρ : Nat) (ρid : Int) (out : Option (Parser × Unit)) :
+    Except Err (List Tok × List Asc.Row) → Prop
+  | .error _ => out = none
+  | .ok (t', rows') => ∃ nodes' new, out = some (st encF t' nodes', ()) ∧ rows' = rows ++ new ∧ NoBad t' ∧
+      Built encF ty nodes nodes' ρ ρ ρid ρid rows.length new
+
+theorem subtree_of_loop {ty : Int} {f : Nat} (hP : LoopSpec encF ty f) (toks : List Tok) (flag : Bool) (ρid : Int) (rows : List Asc.Row)
+    (hnb : NoBad toks) (hne : parseSubtree ty f toks flag ρid ρid rows ≠ .error .fuel) (G : Nat) (hG : 2 * f + 1 ≤ G)
+    (nodes : List ASTNode) (ρ : Nat) (hρ : ρ < nodes.length) :
+    SubPost encF ty rows nodes ρ ρid (parser_parse_subtree G (st encF toks nodes) (ρ : Int) flag) (parseSubtree ty f toks flag ρid ρid rows) := by
+  obtain ⟨G', rfl⟩ : ∃ G', G = G' + 1 := ⟨G - 1, by omega⟩
+  rw [parse_subtree_unfold]
+  have h := hP toks flag ρid ρid rows hnb hne G' G'
+    { (default : LV) with self := st encF toks nodes, root := (ρ : Int), flag := flag, current := (ρ : Int) } nodes ρ ρ (by omega) (by omega)
+    rfl rfl rfl rfl hρ hρ
+  revert h
+  cases parseSubtree ty f toks flag ρid ρid rows with
+  | error e => intro h; simp only [Post] at h; simp [SubPost, h, Py.finish]
+  | ok r =>
+    intro h
+    obtain ⟨v', nodes', new, g1, g2, g3, g4, g5⟩ := h
+    exact ⟨nodes', new, by simp [g1, Py.finish, g2], g3, g4, g5⟩
+
+theorem expectRp_ok (tr t2 : List Tok) (h : NoBad tr) (he : expectRp tr = .ok t2) : tr = .rp :: t2 := by
+  cases tr with
+  | nil => simp [expectRp] at he
+  | cons x t =>
+    cases x <;> simp [expectRp, adv_noBad _ _ h] at he
+    rw [he]
+
+theorem expectLp_ok (tr t2 : List Tok) (h : NoBad tr) (he : expectLp tr = .ok t2) : tr = .lp :: t2 := by
+  cases tr with
+  | nil => simp [expectLp] at he
+  | cons x t =>
+    cases x <;> simp [expectLp, adv_noBad _ _ h] at he
+    rw [he]
+
+/-- result of a whole `_parse_split(root, flag)` call: the nested `_parse_subtree`, then the closing bracket -/
+def SplitPost (encF : SwcText.Sci → Int) (ty : Int) (rows : List Asc.Row) (nodes : List ASTNode) (γ : Nat) (γid : Int) (out : Option (Parser × Unit)) :
+    Except Err (List Tok × List Asc.Row) → Prop
+  | .error _ => out = none
+  | .ok (tr, rowsr) =>
+    match expectRp tr with
+    | .error _ => out = none
+    | .ok t2 => ∃ n1 new1, out = some (st encF t2 n1, ()) ∧ rowsr = rows ++ new1 ∧ NoBad t2 ∧ Built encF ty nodes n1 γ γ γid γid rows.length new1
+
+theorem split_of_loop {ty : Int} {f : Nat} (hP : LoopSpec encF ty f) (toks : List Tok) (flag : Bool) (γid : Int) (rows : List Asc.Row)
+    (hnb : NoBad toks) (hne : parseSubtree ty f toks flag γid γid rows ≠ .error .fuel) (G : Nat) (hG : 2 * f + 2 ≤ G)
+    (nodes : List ASTNode) (γ : Nat) (hγ : γ < nodes.length) :
+    SplitPost encF ty rows nodes γ γid (parser_parse_split G (st encF toks nodes) (γ : Int) flag) (parseSubtree ty f toks flag γid γid rows) := by
+  obtain ⟨G', rfl⟩ : ∃ G', G = G' + 1 := ⟨G - 1, by omega⟩
+  rw [parse_split_unfold]
+  have h := subtree_of_loop hP toks flag γid rows hnb hne G' (by omega) nodes γ hγ
+  revert h
+  cases parseSubtree ty f toks flag γid γid rows with
+  | error e => intro h; simp only [SubPost] at h; simp [SplitPost, h]
+  | ok r =>
+    obtain ⟨tr, rowsr⟩ := r
+    intro h
+    obtain ⟨n1, new1, g1, g2, g3, g4⟩ := h
+    simp only [SplitPost, g1]
+    rw [expectRp_refines encF tr n1 g3]
+    cases he : expectRp tr with
+    | error e => simp
+    | ok t2 =>
+      have := expectRp_ok tr t2 g3 he
+      exact ⟨n1, new1, by simp, g2, noBad_drop g3 [.rp] t2 (by simpa using this), g4⟩
+
+/-- an iteration that calls `_parse_split` (`( (` and `( |`), then the rest of the loop -/
+theorem split_case {ty : Int} {f : Nat} (hP : LoopSpec encF ty f) (toksN : List Tok) (flagN : Bool) (ρid γid : Int) (rows : List Asc.Row)
+    (hnb : NoBad toksN) (G n' : Nat) (v : LV) (nodes : List ASTNode) (ρ γ : Nat) (hn : f ≤ n') (hG : 2 * f + 2 ≤ G)
+    (hρ : ρ < nodes.length) (hγ : γ < nodes.length) (mk : Parser × Unit → LV)
+    (hmk : ∀ r, (mk r).self = r.1 ∧ (mk r).root = (ρ : Int) ∧ (mk r).current = (γ : Int) ∧ (mk r).flag = true)
+    (hbody : loopBody G v = match parser_parse_split G (st encF toksN nodes) (γ : Int) flagN with | none => .err | some r => .next (mk r))
+    (hne : (parseSubtree ty f toksN flagN γid γid rows >>= fun r => expectRp r.1 >>= fun t2 => parseSubtree ty f t2 true ρid γid r.2) ≠ .error .fuel) :
+    Post encF ty rows nodes γ ρ γid ρid (L G (n' + 1) v)
+      (parseSubtree ty f toksN flagN γid γid rows >>= fun r => expectRp r.1 >>= fun t2 => parseSubtree ty f t2 true ρid γid r.2) := by
+  have hne1 : parseSubtree ty f toksN flagN γid γid rows ≠ .error .fuel := by
+    intro h; rw [h] at hne; exact hne rfl
+  have hsp := split_of_loop hP toksN flagN γid rows hnb hne1 G hG nodes γ hγ
+  revert hsp hne
+  cases parseSubtree ty f toksN flagN γid γid rows with
+  | error e =>
+    intro hne hsp
+    simp only [SplitPost] at hsp
+    rw [hsp] at hbody
+    simp only [error_bind, Post]
+    exact L_err _ _ _ hbody
+  | ok r =>
+    obtain ⟨tr, rowsr⟩ := r
+    simp only [ok_bind, SplitPost]
+    cases expectRp tr with
+    | error e =>
+      intro hne hsp
+      simp only at hsp
+      rw [hsp] at hbody
+      simp only [error_bind, Post]
+      exact L_err _ _ _ hbody
+    | ok t2 =>
+      intro hne hsp
+      simp only [ok_bind] at hne ⊢
+      obtain ⟨n1, new1, g1, g2, g3, g4⟩ := hsp
+      rw [g1] at hbody
+      rw [L_next _ _ _ _ hbody]
+      obtain ⟨m1, m2, m3, m4⟩ := hmk (st encF t2 n1, ())
+      have hlen := g4.len
+      subst g2
+      exact Post.split hγ hρ g4 (hP t2 true ρid γid _ g3 hne G n' _ n1 ρ γ hn (by omega) m1 m2 m3 m4 (by omega) (by omega))
+
+theorem loop_zero (ty : Int) : LoopSpec encF ty 0 := by
+  intro toks flag ρid γid rows _ hne
+  exact absurd rfl hne
+
+theorem loop_step {ty : Int} {f : Nat} (hP : LoopSpec encF ty f) : LoopSpec encF ty (f + 1) := by
+  intro toks flag ρid γid rows hnb hne G n v nodes ρ γ hn hG hs hr hc hf hρ hγ
+  obtain ⟨n', rfl⟩ : ∃ n', n = n' + 1 := ⟨n - 1, by omega⟩
+  cases toks with
+  | nil =>
+    have e : parseSubtree ty (f + 1) [] flag ρid γid rows = .ok ([], rows) := by simp only [parseSubtree]
+    rw [e, L_brk _ _ _ _ (step_nil encF G v nodes hs)]
+    exact ⟨_, nodes, [], rfl, hs, by simp, by intro x hx; simp at hx, Built.nil encF ty nodes γ ρ γid ρid _⟩
+  | cons tk t =>
+    have hnt := hnb.tail
+    cases tk with
+    | lp =>
+      cases flag with
+      | true =>
+        have e : parseSubtree ty (f + 1) (.lp :: t) true ρid γid rows = parseSubtree ty f t false ρid γid rows := by
+          simp only [parseSubtree, adv_noBad _ _ hnb, ok_bind]; rfl
+        rw [e] at hne ⊢
+        rw [L_next _ _ _ _ (step_lp_flag encF G v t nodes hs hf)]
+        exact hP t false ρid γid rows hnt hne G n' _ nodes ρ γ (by omega) (by omega) rfl hr hc rfl hρ hγ
+      | false =>
+        have e : parseSubtree ty (f + 1) (.lp :: t) false ρid γid rows =
+            (parseSubtree ty f t false γid γid rows >>= fun r => expectRp r.1 >>= fun t2 => parseSubtree ty f t2 true ρid γid r.2) := by
+          simp only [parseSubtree, adv_noBad _ _ hnb, ok_bind]; rfl
+        rw [e] at hne ⊢
+        have hb := step_lp_noflag encF G v t nodes hs hf
+        rw [hc] at hb
+        exact split_case hP t false ρid γid rows hnt G n' v nodes ρ γ (by omega) (by omega) hρ hγ
+          (fun r => { v with token := some (enc encF .lp), self := r.1, flag := true, current := (γ : Int) }) (fun r => ⟨rfl, hr, rfl, rfl⟩) hb hne
+    | rp =>
+      cases flag with
+      | true =>
+        have e : parseSubtree ty (f + 1) (.rp :: t) true ρid γid rows = .ok (.rp :: t, rows) := by simp only [parseSubtree]; rfl
+        rw [e, L_brk _ _ _ _ (step_rp_flag encF G v t nodes hs hf)]
+        exact ⟨_, nodes, [], rfl, hs, by simp, hnb, Built.nil encF ty nodes γ ρ γid ρid _⟩
+      | false =>
+        have e : parseSubtree ty (f + 1) (.rp :: t) false ρid γid rows = parseSubtree ty f t true ρid γid rows := by
+          simp only [parseSubtree, adv_noBad _ _ hnb, ok_bind]; rfl
+        rw [e] at hne ⊢
+        rw [L_next _ _ _ _ (step_rp_noflag encF G v t nodes hs hf)]
+        exact hP t true ρid γid rows hnt hne G n' _ nodes ρ γ (by omega) (by omega) rfl hr hc rfl hρ hγ
+    | bar =>
+      cases flag with
+      | true =>
+        have e : parseSubtree ty (f + 1) (.bar :: t) true ρid γid rows = parseSubtree ty f t true ρid ρid rows := by
+          simp only [parseSubtree, adv_noBad _ _ hnb, ok_bind]; rfl
+        rw [e] at hne ⊢
+        rw [L_next _ _ _ _ (step_bar_flag encF G v t nodes hs hf)]
+        exact Post.bar (hP t true ρid ρid rows hnt hne G n' _ nodes ρ ρ (by omega) (by omega) rfl hr hr rfl hρ hρ)
+      | false =>
+        have e : parseSubtree ty (f + 1) (.bar :: t) false ρid γid rows =
+            (parseSubtree ty f (.bar :: t) true γid γid rows >>= fun r => expectRp r.1 >>= fun t2 => parseSubtree ty f t2 true ρid γid r.2) := by
+          simp only [parseSubtree, ok_bind]; rfl
+        rw [e] at hne ⊢
+        have hb := step_bar_noflag encF G v t nodes hs hf
+        rw [hc] at hb
+        exact split_case hP (.bar :: t) true ρid γid rows hnb G n' v nodes ρ γ (by omega) (by omega) hρ hγ
+          (fun r => { v with token := some (enc encF .bar), self := r.1, flag := true, current := (γ : Int) }) (fun r => ⟨rfl, hr, rfl, rfl⟩) hb hne
+    | comment c =>
+      have e : parseSubtree ty (f + 1) (.comment c :: t) flag ρid γid rows = parseSubtree ty f t flag ρid γid rows := by
+        simp only [parseSubtree, adv_noBad _ _ hnb, ok_bind]
+      rw [e] at hne ⊢
+      have hb := step_comment encF G v c t nodes hs
+      rw [hc, parse_comment_refines] at hb
+      obtain ⟨n1, a1, a2, a3⟩ := attach nodes (commentRec c) γ hγ
+      rw [a1] at hb
+      rw [L_next _ _ _ _ hb]
+      exact Post.leaf (commentRec c) hγ hρ (Or.inr rfl) rfl a3 a2
+        (hP t flag ρid γid rows hnt hne G n' _ n1 ρ γ (by omega) (by omega) rfl hr rfl hf (by omega) (by omega))
+    | float a =>
+      cases flag with
+      | true =>
+        have e : parseSubtree ty (f + 1) (.float a :: t) true ρid γid rows = .error .tokenType := by simp only [parseSubtree]; rfl
+        rw [e]
+        exact L_err _ _ _ (step_float_flag encF G v a t nodes hs hf)
+      | false =>
+        have e : parseSubtree ty (f + 1) (.float a :: t) false ρid γid rows =
+            (parseNode (.float a :: t) >>= fun nr => parseSubtree ty f nr.2 true ρid (rows.length : Int)
+              (rows ++ [⟨ty, nr.1.1, nr.1.2.1, nr.1.2.2.1, nr.1.2.2.2, γid⟩])) := by
+          simp only [parseSubtree, ok_bind]; rfl
+        rw [e] at hne ⊢
+        have hb := step_float_noflag encF G v a t nodes hs hf
+        rw [hc, parse_node_refines encF _ _ _ hnb] at hb
+        revert hb hne
+        cases hpn : parseNode (.float a :: t) with
+        | error er =>
+          intro hne hb
+          exact L_err _ _ _ hb
+        | ok nr =>
+          obtain ⟨⟨x, y, z, r⟩, rest⟩ := nr
+          intro hne hb
+          simp only [ok_bind] at hne ⊢
+          obtain ⟨n1, a1, a2, a3⟩ := attach nodes (nodeRec encF x y z r) γ hγ
+          simp only [a1, Option.map_some] at hb
+          rw [L_next _ _ _ _ hb]
+          exact Post.node x y z r hγ hρ a3 a2
+            (hP rest true ρid _ _ (parseNode_noBad _ hnb _ _ hpn) hne G n' _ n1 ρ nodes.length (by omega) (by omega) rfl hr rfl rfl
+              (by omega) (by omega))
+    | literal w =>
+      by_cases hw : upper w = "COLOR".toList
+      · have e : parseSubtree ty (f + 1) (.literal w :: t) flag ρid γid rows =
+            (parseColor (.literal w :: t) >>= fun t1 => parseSubtree ty f t1 true ρid γid rows) := by
+          simp only [parseSubtree, hw, if_true]
+        rw [e] at hne ⊢
+        have hb := step_lit_color encF G v w t nodes hs hw
+        rw [hc, parse_color_refines encF _ _ _ hnb] at hb
+        revert hb hne
+        cases hpc : parseColor (.literal w :: t) with
+        | error er =>
+          intro hne hb
+          exact L_err _ _ _ hb
+        | ok rest =>
+          intro hne hb
+          simp only [ok_bind] at hne ⊢
+          obtain ⟨n1, a1, a2, a3⟩ := attach nodes (colorRec encF (.literal w :: t)) γ hγ
+          simp only [a1, Option.map_some] at hb
+          rw [L_next _ _ _ _ hb]
+          exact Post.leaf (colorRec encF (.literal w :: t)) hγ hρ (Or.inl rfl) rfl a3 a2
+            (hP rest true ρid γid rows (parseColor_noBad _ hnb _ hpc) hne G n' _ n1 ρ γ (by omega) (by omega) rfl hr rfl rfl (by omega) (by omega))
+      · have e : parseSubtree ty (f + 1) (.literal w :: t) flag ρid γid rows = .error .literal := by
+          simp only [parseSubtree, hw, if_false]
+        rw [e]
+        exact L_err _ _ _ (step_lit_other encF G v w t nodes hs hw)
+    | bad => exact absurd rfl (noBad_head hnb)
+
+/-- **`_parse_subtree` ↔ `_parse_split` as translated do what `Asc.parseSubtree` does**, for every fuel of the model (induction), every
+token list without a lexer failure, every state of the `flag` protocol and every heap: see `LoopSpec` -/
+theorem loop_sim (ty : Int) : ∀ f : Nat, LoopSpec encF ty f
+  | 0 => loop_zero ty
+  | f + 1 => loop_step (loop_sim ty f)
+
 end RefineAscLoop
